@@ -505,6 +505,10 @@ class TaborProgram(ProgramEntry):
     def setup_single_sequence_mode(self) -> None:
         assert self.program.depth() == 1
         assert self.program.is_balanced()
+
+        if len(self.program) > self._device_properties['max_seq_len']:
+            raise TaborException('The algorithm is not smart enough to make sequence tables shorter')
+
         self._parsed_program = parse_single_seq_program(program=self.program, used_channels=self._used_channels)
         self._mode = TaborSequencing.SINGLE
 
